@@ -315,6 +315,12 @@ def r11_7(prog: Program, rep: Report, rule="R11.7"):
                         first = True
                     if s[1][1][2] in ("rsplit", "rpartition"):
                         last = True
+    # ... and only when that text *is a name*: the first dot of 'list[decimal.Decimal]' or 'int | mod.X' is not a qualifier's
+    head = lambda s: s[0] == "sub" and s[1][0] == "call" and s[1][1][0] == "attr" and s[1][1][1] == rp and s[1][1][2] in ("split", "partition") and s[2] == ("const", 0)  # noqa: E731
+    text_exits = [p for p, r in P.returns(P.paths_of(prog, rm)) if head(r)]
+    named = bool(text_exits) and all(any(pol and T.contains(g, lambda x: x[0] == "call" and x[1][0] == "attr" and x[1][2] in ("isidentifier", "fullmatch", "match") and (head(x[1][1]) or any(head(a) for a in x[2]))) for g, pol in p.guards()) for p in text_exits)
+    if text_exits:
+        rep.check(named, rule, rm.qualname, rm.loc, "the text before the first dot is taken for the module only when it is an identifier", "the text before the first dot of a reference string is taken for its module whatever it is: for 'list[decimal.Decimal]' (or 'int | mod.X', 'Optional[mod.X]') the \"module\" is 'list[decimal', the rest 'Decimal]' is not an expression -- SyntaxError", detail="qualifier-is-a-name")
     rep.check(first and not last, rule, rm.qualname, rm.loc, "the module of a dotted reference string is the text before its first dot", "the module of a dotted reference string is cut at the last dot: 'mod.Outer.Inner' is looked for in a module 'mod.Outer'", detail="first-dot")
 
 
